@@ -227,7 +227,8 @@ def run(chk: common.Check):
         rule=("obligations = theorems of coq/props/C03.v (all access sequences / memo tables; the extracted inventory by vm_compute). Search: every job "
               "alone in a fresh process vs at every position of interleaved sequences (structures x parameter files x display mode) in one process; "
               "fresh processes with PYTHONHASHSEED 0,1,2,7 on multi-conformation multi-chain input and display mode; stream vs absolute / relative "
-              "path vs other working directory; one CLI invocation with two inputs (both orders) vs one each. distinct = (sequence, position) etc."),
+              "path vs other working directory; one CLI invocation with two inputs (both orders) vs one each. distinct = (sequence, position) etc."
+              " Added in rounds 4-6: pre-read / reused streams, a working directory with parameter-file look-alikes, structures introducing chain identifiers in another order, a run computed but not written before a written one."),
         assumptions=["the inventory covers instances of propka classes held at module level or in class bodies and accesses through `self`; state kept "
                      "in closures, in mutable default arguments or in other modules' globals is covered by the search only",
                      "log output is not part of the compared results (a default-insert memo warns only the first time)"],
